@@ -87,8 +87,10 @@ def okInit (s : Setup α) (k : Nat) (c : List (List α)) : Bool :=
 
 def conv (s : Setup α) (a b : List (List α)) : Bool := distOf cd s.metric a b < s.tol
 
+/-- `min_inertia` starts at `F::infinity()`: the selection is `fit` with the sentinel test `ltThr +∞`
+(the function `Props.C09.fit_err_iff`, `fit_inertia_is_min_of_sentinel`, … are about) -/
 def doFit (s : Setup α) (k m : Nat) (inits : List (List (List α))) : Option (Fitted α) :=
-  fit s.rd (conv cd s) (fun x => x < cd.inf) k s.xs m inits
+  fit s.rd (conv cd s) (ltThr cd.inf) k s.xs m inits
 
 def handleClosest (toks : List String) : Option String := do
   let metric ← arg toks "metric"
@@ -109,8 +111,8 @@ def handleUpdate (toks : List String) : Option String := do
   some ("ok " ++ showMat cd (updateCentroids cs xs mem))
 
 /-- one fit from a precomputed matrix; then every calling form of predict / transform on the
-training rows followed by `Q`: the matrix form, the one-observation form row by row, and
-`predict_inplace` on a caller-supplied buffer filled with `7`s -/
+training rows followed by `Q`: the matrix form, the one-observation form row by row,
+`predict_inplace` on a caller-supplied buffer filled with `7`s and on a buffer one cell short -/
 def handleFit (toks : List String) : Option String := do
   let s ← setup cd toks
   let init ← argSs2 cd toks "init"
@@ -126,8 +128,12 @@ def handleFit (toks : List String) : Option String := do
     let pi := match predictInplace s.rd f.centroids all (List.replicate all.length 7) with
       | some r => showList toString r
       | none => "panic"
+    -- the same call with a buffer one cell short: the `assert_eq!` (`none`) is what the code must answer
+    let sh := match predictInplace s.rd f.centroids all (List.replicate (all.length - 1) 0) with
+      | some _ => "accepted"
+      | none => "panic"
     let tr := transform s.rd f.centroids all
-    some s!"ok {showFitted cd (some f)} pred={showList toString pr} pred1={showList toString p1} inplace={pi} tr={showList cd.shw tr}"
+    some s!"ok {showFitted cd (some f)} pred={showList toString pr} pred1={showList toString p1} inplace={pi} short={sh} tr={showList cd.shw tr}"
 
 /-- the whole trajectory: budgets `1..M` from the same initial matrix -/
 def handleTraj (toks : List String) : Option String := do
